@@ -1,4 +1,4 @@
-SOURCE_COMMITS = ['2a82dd5', '23b3277', 'd11a4bc', '0ff938d', 'f5c3f96', '4d27d01', '24cde5a', 'eabce87', '6660817', '6b4eb47', '2cb23c1', '3b6902e']
+SOURCE_COMMITS = ['2a82dd5', '23b3277', 'd11a4bc', '0ff938d', 'f5c3f96', '4d27d01', '24cde5a', 'eabce87', '6660817', '6b4eb47', '2cb23c1', '3b6902e', '3a1ed2d', '294bb7e']
 NOTES = ('Exit codes of ./check: 0 all obligations discharged; 1 violation (VIOLATION line); '
          '2 undecided (solver unknown / extraction failure / contract binding lost); 3 checker crash. '
          'See DESIGN.md.')
@@ -146,4 +146,15 @@ CLAIMED = {
         'TensorFlow definitions, EMNIST domain_id for both id formats.',
    note='Trusted: numpy zeros/full/slices/fancy indexing/reshape order, TensorFlow documented definitions, StackOverflow '
         'tokenizer ids (TF lookup ops). Row independence of the packaged networks: bounded native check only (not proved).'),
+ 'C18': dict(
+   text='walsh_hadamard_transform: while-loop invariant in exponent form (n = 2^a, small_n = 2^b, ghost remaining exponent; '
+        'blocks 0..8 as powers of two, sum of exponents = a), guard = "more than 8 blocks", then the real reshape / dict / '
+        'einsum code executed for every num_dims 0..8: each einsum spec string is parsed and must contract one axis with a '
+        'Hadamard matrix of that axis size, each axis once. Powers of two are an uninterpreted P2 with instances of Lean 4 + '
+        'Mathlib theorems (lean/Pow2.lean, checked by lean on every run). structured_rotation composed with its inverse over '
+        'an abstract vector algebra at an arbitrary coordinate (ranks 0..3): norm, inverse, shapes, dtypes; pytree versions by '
+        'loop invariants at an arbitrary leaf (same per-leaf key); jit-static taint check.',
+   note='Trusted math: Kronecker factorisation of Sylvester matrices, H H = d I, Parseval; einsum/reshape/pad/take semantics; '
+        'ceil(log2 s) exact for s <= 2^24; reals for float32. Bounded (native): matrix identity to 2^10 (2^14 thorough), '
+        'different keys give different rotations.'),
 }
